@@ -62,6 +62,10 @@ def cases(tier):
     for lvl in ("V", "M"):
         w = cm.world(cm.subs(1, 0, 2), [{"kind": "env", "env": "e0", "order": "PF", "level": lvl}])
         out.append({"id": f"contract/E1-PF-{lvl}/p0", "what": "contract", "world": w, "who": "p0", "final": "Label"})
+    # ---- contraction of concrete density matrices (goes through the numeric eigh) -------------------------------------
+    for who in ("p0", "c0", "env", "ps"):
+        for st in ("maxmixed", "mixed-diag", "mixed-complex", "pure-plus", "pure-basis"):
+            out.append({"id": f"contract-concrete/{who}/{st}", "what": "concrete", "who": who, "state": st})
     # ---- twin runs with contraction on ------------------------------------------------------------------------
     from harness import C01, C06
     from harness import measure_common as mc
@@ -124,6 +128,8 @@ def scenario(B, case):
 
         return mc.scenario(B, case, "C04")
 
+    if what == "concrete":
+        return _concrete(B, case)
     W = World(B, case["world"])
     h = W.h
     EL = h.ExpansionLevel
@@ -159,3 +165,64 @@ def scenario(B, case):
     b0, b1 = pre.block_of(obj), post.block_of(obj)
     B.require_structural(int(b1.level) <= int(b0.level) and int(b1.level) >= min(int(final), int(b0.level)),
                          f"C08: contract(final={case['final']}) moved level {b0.level!r} to {b1.level!r}")
+
+
+def _concrete(B, case):
+    """contract() on concrete density matrices: a mixed state must stay untouched at Matrix level, a pure one may become a
+    vector with the same |psi><psi| (tolerance 1e-7: the eigen-decomposition is floating point)"""
+    import numpy as np
+
+    from symx.world import World
+
+    who, st = case["who"], case["state"]
+    if who in ("p0",):
+        w = cm.world(cm.subs(1, 0, 2), [{"kind": "own", "sub": "p0", "level": "M"}])
+        d = 2
+    elif who == "c0":
+        w = cm.world(cm.subs(0, 1, 2, 2), [{"kind": "own", "sub": "c0", "level": "M"}])
+        d = 2
+    elif who == "env":
+        w = cm.world(cm.subs(1, 0, 2), [{"kind": "env", "env": "e0", "order": "PF", "level": "M"}])
+        d = 4
+    else:
+        w = cm.world(cm.subs(1, 1, 2, 2), [{"kind": "ps", "ce": 0, "members": ["p0", "c0"], "level": "M"}], [["e0", "c0"]])
+        d = 4
+    W = World(B, w)
+    h = W.h
+    EL = h.ExpansionLevel
+    rho = {"maxmixed": np.eye(d) / d,
+           "mixed-diag": np.diag([0.7, 0.3] + [0.0] * (d - 2)),
+           "mixed-complex": None,
+           "pure-plus": None,
+           "pure-basis": np.diag([0.0, 1.0] + [0.0] * (d - 2))}[st]
+    if st == "mixed-complex":
+        rho = np.zeros((d, d), dtype=complex)
+        rho[0, 0], rho[1, 1], rho[0, 1], rho[1, 0] = 0.6, 0.4, 0.2 - 0.1j, 0.2 + 0.1j
+    if st == "pure-plus":
+        v = np.zeros((d, 1), dtype=complex)
+        v[0, 0], v[d - 1, 0] = 0.6, 0.8j
+        rho = v @ v.conj().T
+    arr = B.jnp.array(rho)
+    if who == "env":
+        holder = W.envs["e0"]
+        obj = holder
+    elif who == "ps":
+        holder = W.product_state_of(W.sub("p0"))
+        obj = holder
+    else:
+        holder = W.sub(who)
+        obj = holder
+    holder.state = arr
+    pre = W.snapshot()
+    if who == "ps":
+        obj.contract()
+    elif who == "env":
+        obj.contract()
+    else:
+        obj.contract(final=EL.Vector)
+    post = W.snapshot()
+    checks.compare_unchanged(B, W, pre, post, f"C08/contract of a concrete {st} state")
+    checks.check_wf(B, W, post, "C08/contract-concrete wf", unit=True)
+    b1 = post.block_of(W.sub("p0") if who != "c0" else W.sub("c0"))
+    if st.startswith("mixed") or st == "maxmixed":
+        B.require_structural(b1.level == EL.Matrix, f"C08: a mixed state was contracted to level {b1.level!r}")
